@@ -1,0 +1,247 @@
+//! Verification hooks for the `tcp` domain (`--cfg litep2p_verif` only).
+//!
+//! [`TcpHarness`] owns a real [`TcpTransport`] built through [`TransportBuilder::new`] with a real
+//! [`TransportHandle`] of a real [`TransportManager`] (which is kept alive but never polled: the
+//! out-of-tree driver plays the manager). Every method of the crate-private [`Transport`] trait
+//! is exposed with plain-data arguments and results, the transport's event stream is projected
+//! to plain data, and the bookkeeping maps can be read (never written).
+
+use crate::{
+    codec::ProtocolCodec,
+    crypto::ed25519::Keypair,
+    executor::DefaultExecutor,
+    protocol::{SubstreamKeepAlive, TransportService},
+    transport::{
+        manager::{SupportedTransport, TransportManager, TransportManagerBuilder},
+        tcp::{config::Config, TcpTransport},
+        Transport, TransportBuilder, TransportEvent,
+    },
+    types::{protocol::ProtocolName, ConnectionId},
+    PeerId,
+};
+
+use futures::{future::BoxFuture, FutureExt, StreamExt};
+use hickory_resolver::{
+    config::{ResolverConfig, ResolverOpts, GOOGLE},
+    net::runtime::TokioRuntimeProvider,
+    TokioResolver,
+};
+use multiaddr::Multiaddr;
+
+use std::{sync::Arc, time::Duration};
+
+/// Event emitted by the TCP transport, projected to plain data.
+#[derive(Debug, Clone, PartialEq, Eq)]
+pub enum TcpEvent {
+    Established { peer: PeerId, cid: usize, listener: bool, address: Multiaddr },
+    Closed { peer: PeerId, cid: usize },
+    DialFailure { cid: usize, address: Multiaddr, error: String },
+    Opened { cid: usize, address: Multiaddr, errors: Vec<(Multiaddr, String)> },
+    OpenFailure { cid: usize, errors: Vec<(Multiaddr, String)> },
+    PendingInbound { cid: usize },
+    /// The transport's stream ended.
+    Terminated,
+}
+
+/// Read-only projection of the transport's bookkeeping (keys sorted).
+#[derive(Debug, Clone, PartialEq, Eq, Default)]
+pub struct Bookkeeping {
+    /// Keys of `pending_dials`.
+    pub pending_dials: Vec<usize>,
+    /// Keys of `pending_inbound_connections`.
+    pub pending_inbound: Vec<usize>,
+    /// Keys of `opened`.
+    pub opened: Vec<usize>,
+    /// Keys of `pending_open`.
+    pub pending_open: Vec<usize>,
+    /// Keys of `cancel_futures` with the handle's `is_aborted()`.
+    pub cancel_futures: Vec<(usize, bool)>,
+    /// Number of futures in `pending_connections`.
+    pub pending_connections: usize,
+    /// Number of futures in `pending_raw_connections`.
+    pub pending_raw_connections: usize,
+}
+
+/// Configuration of the transport under test (plain data).
+#[derive(Debug, Clone)]
+pub struct TcpSetup {
+    pub listen_addresses: Vec<Multiaddr>,
+    pub reuse_port: bool,
+    pub connection_open_timeout: Duration,
+    pub substream_open_timeout: Duration,
+    pub max_parallel_dials: usize,
+    /// Number of dummy protocols registered with the manager before the handle is taken.
+    pub protocols: usize,
+}
+
+/// A real `TcpTransport` driven call by call.
+pub struct TcpHarness {
+    manager: TransportManager,
+    services: Vec<TransportService>,
+    transport: TcpTransport,
+    listen: Vec<Multiaddr>,
+    local: PeerId,
+}
+
+fn err_text(error: impl std::fmt::Debug) -> String {
+    format!("{error:?}")
+}
+
+fn project(event: TransportEvent) -> TcpEvent {
+    match event {
+        TransportEvent::ConnectionEstablished { peer, endpoint } => TcpEvent::Established {
+            peer,
+            cid: endpoint.connection_id().verif_as_usize(),
+            listener: endpoint.is_listener(),
+            address: endpoint.address().clone(),
+        },
+        TransportEvent::ConnectionClosed { peer, connection_id } =>
+            TcpEvent::Closed { peer, cid: connection_id.verif_as_usize() },
+        TransportEvent::DialFailure { connection_id, address, error } => TcpEvent::DialFailure {
+            cid: connection_id.verif_as_usize(),
+            address,
+            error: err_text(error),
+        },
+        TransportEvent::ConnectionOpened { connection_id, address, errors } => TcpEvent::Opened {
+            cid: connection_id.verif_as_usize(),
+            address,
+            errors: errors.into_iter().map(|(a, e)| (a, err_text(e))).collect(),
+        },
+        TransportEvent::OpenFailure { connection_id, errors } => TcpEvent::OpenFailure {
+            cid: connection_id.verif_as_usize(),
+            errors: errors.into_iter().map(|(a, e)| (a, err_text(e))).collect(),
+        },
+        TransportEvent::PendingInboundConnection { connection_id } =>
+            TcpEvent::PendingInbound { cid: connection_id.verif_as_usize() },
+    }
+}
+
+impl TcpHarness {
+    /// Build the transport. Must be called inside a tokio runtime (I/O and time drivers enabled).
+    pub fn new(keypair: Keypair, setup: TcpSetup) -> Result<Self, String> {
+        let mut manager = TransportManagerBuilder::new()
+            .with_keypair(keypair)
+            .with_supported_transports([SupportedTransport::Tcp].into_iter().collect())
+            .build();
+        let services = (0..setup.protocols)
+            .map(|i| {
+                manager.register_protocol(
+                    ProtocolName::from(format!("/verif/tcp/{i}")),
+                    Vec::new(),
+                    ProtocolCodec::UnsignedVarint(None),
+                    Duration::from_secs(3600),
+                    SubstreamKeepAlive::Yes,
+                )
+            })
+            .collect();
+        let handle = manager.transport_handle(Arc::new(DefaultExecutor));
+        // no DNS lookups are made for ip4/ip6 addresses; the resolver is only constructed
+        let resolver = Arc::new(
+            TokioResolver::builder_with_config(
+                ResolverConfig::udp_and_tcp(&GOOGLE),
+                TokioRuntimeProvider::default(),
+            )
+            .with_options(ResolverOpts::default())
+            .build()
+            .map_err(err_text)?,
+        );
+        let config = Config {
+            listen_addresses: setup.listen_addresses,
+            reuse_port: setup.reuse_port,
+            connection_open_timeout: setup.connection_open_timeout,
+            substream_open_timeout: setup.substream_open_timeout,
+            max_parallel_dials: setup.max_parallel_dials,
+            ..Default::default()
+        };
+        let (transport, listen) =
+            <TcpTransport as TransportBuilder>::new(handle, config, resolver).map_err(err_text)?;
+        let local = manager.verif_local_peer_id();
+        Ok(Self { manager, services, transport, listen, local })
+    }
+
+    /// Local peer id.
+    pub fn local_peer_id(&self) -> PeerId {
+        self.local
+    }
+
+    /// Addresses the transport listens on.
+    pub fn listen_addresses(&self) -> Vec<Multiaddr> {
+        self.listen.clone()
+    }
+
+    /// Allocate a connection id from the allocator the manager and the transport share.
+    pub fn next_connection_id(&self) -> usize {
+        self.manager.verif_next_connection_id().verif_as_usize()
+    }
+
+    /// `Transport::dial`.
+    pub fn dial(&mut self, cid: usize, address: Multiaddr) -> Result<(), String> {
+        self.transport.dial(ConnectionId::from(cid), address).map_err(err_text)
+    }
+
+    /// `Transport::open`.
+    pub fn open(&mut self, cid: usize, addresses: Vec<Multiaddr>) -> Result<(), String> {
+        self.transport.open(ConnectionId::from(cid), addresses).map_err(err_text)
+    }
+
+    /// `Transport::negotiate`.
+    pub fn negotiate(&mut self, cid: usize) -> Result<(), String> {
+        self.transport.negotiate(ConnectionId::from(cid)).map_err(err_text)
+    }
+
+    /// `Transport::cancel`.
+    pub fn cancel(&mut self, cid: usize) {
+        self.transport.cancel(ConnectionId::from(cid))
+    }
+
+    /// `Transport::accept`; the returned future is the one the manager would await.
+    pub fn accept(&mut self, cid: usize) -> Result<BoxFuture<'static, Result<(), String>>, String> {
+        self.transport
+            .accept(ConnectionId::from(cid))
+            .map(|future| future.map(|result| result.map_err(err_text)).boxed())
+            .map_err(err_text)
+    }
+
+    /// `Transport::reject`.
+    pub fn reject(&mut self, cid: usize) -> Result<(), String> {
+        self.transport.reject(ConnectionId::from(cid)).map_err(err_text)
+    }
+
+    /// `Transport::accept_pending`.
+    pub fn accept_pending(&mut self, cid: usize) -> Result<(), String> {
+        self.transport.accept_pending(ConnectionId::from(cid)).map_err(err_text)
+    }
+
+    /// `Transport::reject_pending`.
+    pub fn reject_pending(&mut self, cid: usize) -> Result<(), String> {
+        self.transport.reject_pending(ConnectionId::from(cid)).map_err(err_text)
+    }
+
+    /// Next event of the transport's stream (suspends until there is one).
+    pub async fn next_event(&mut self) -> TcpEvent {
+        match self.transport.next().await {
+            Some(event) => project(event),
+            None => TcpEvent::Terminated,
+        }
+    }
+
+    /// Read-only projection of the bookkeeping maps.
+    pub fn bookkeeping(&self) -> Bookkeeping {
+        self.transport.verif_bookkeeping()
+    }
+
+    /// `(peer, connection id)` of closures reported by connection tasks to the (unpolled) manager;
+    /// also empties the inboxes of the dummy protocols so connection tasks never block on them.
+    pub fn drain_reports(&mut self) -> Vec<(PeerId, usize)> {
+        let waker = futures::task::noop_waker();
+        let mut cx = std::task::Context::from_waker(&waker);
+        for service in self.services.iter_mut() {
+            while let std::task::Poll::Ready(Some(_)) = service.poll_next_unpin(&mut cx) {}
+        }
+        let mut out = Vec::new();
+        while let Some(report) = self.manager.verif_try_recv_event() {
+            out.push(report);
+        }
+        out
+    }
+}
